@@ -5,7 +5,7 @@ from pathlib import Path
 root = Path(__file__).resolve().parent.parent / "seeded"
 rows = []
 for d in sorted(root.iterdir()):
-    if not d.is_dir():
+    if not d.is_dir() or d.name == "harmless":
         continue
     notes = (d / "notes.md").read_text().splitlines() if (d / "notes.md").exists() else [""]
     title = re.sub(r"^#+\s*", "", notes[0]).strip()
